@@ -3,6 +3,18 @@ import json, os, sys
 HERE = os.path.dirname(os.path.dirname(os.path.abspath(__file__)))
 
 CHECKS = {
+    "C07": ("model_checking", "3 C07",
+            "BFS over container histories (schema chain aa<bb<cc, sibling dd, auxiliary xx, unknown zz, core.file) on h5py.File and IH5Record; in every state for every node x (schema, version) grid: in/get/[]/keys vs the reference model (exact object for the own schema, parent view for ancestors, refusal of auxiliary/unknown/duplicate), and for every start node x (schema, version): container.query(node=), container.query(), node.metador.query == brute-force scan of the model. Objects of different schema versions coexisting are produced by a process boundary: every write history of an old-environment process is reopened and continued in an upgraded-environment process.",
+            "One schema version per environment (documented limitation); get() judged where the environment has a class for the request; any compatible child may serve a parent request (documented); bounded depth/alphabet.",
+            "explicit-state BFS of the real implementation vs. reference model (bounded exhaustive)"),
+    "C08": ("model_checking", "3 C08",
+            "Container BFS with metadata operations as background events; in every reached state: the user-visible tree through visititems/visit/keys/values/items/iter/len/in/get from every group equals a plain h5py tree fed the same user ops and contains no reserved name; every path-taking method (reflected from the H5GroupLike protocol and the wrappers' public methods) x every path position x synthetic and real reserved paths, from the root and from a group, is rejected with the raw container unchanged; every public attribute of the raw object outside the supported protocol is refused.",
+            "Plain h5py tree is the reference for the user-visible tree; False/None count as rejection for `in`/`get`; bounded depth/alphabet.",
+            "explicit-state BFS of the real implementation + exhaustive method x reserved-path cross product per state"),
+    "C16": ("model_checking", "3 C16",
+            "Ordering/equality/hash laws on all pairs and triples of 216 reference objects (3 classes x 72 refs), supports() against its definition on all pairs; the plugin registry as a state machine: all registration orders of all subsets (size <=4 quick, <=6 thorough) of 6 versions through each mechanism (constructor, _add_ep, register_in_group) on fresh group objects, with versions/resolve/get/keys/in checked against the reference in every reached state; entry-point name codec over a bounded grammar in both directions; every installed plugin and nested schema obtained without a version must refuse subclassing.",
+            "Finite version/name ranges; harness-owned plugin group and fresh instance of the real PGSchema class; registry state rebuilt fresh per execution.",
+            "exhaustive enumeration of registration orders on the real registry (explicit-state) + exhaustive law checking"),
     "C06": ("model_checking", "3 C06",
             "BFS over container histories (create/delete datasets and groups, attach/detach metadata of a 3-level schema family + core.file, copy with/without metadata, move, reopen, IH5 patch boundary) on real MetadorContainers over h5py.File and IH5Record, from the empty container and from populated start states; after every op, successful or failed: independent scan of the raw tree against the documented layout (link<->object bijection, UUID uniqueness, schema/package records exactly for used schemas, no empty or orphan bookkeeping), attached set == reference model, live in-memory index == index rebuilt by a fresh MetadorContainer.",
             "Documented container layout is what the scan reads; harness schema family registered like an installed package; bounded depth/alphabet; private index fields compared only between two objects of the same build (semantic normalisation, public answers as well).",
